@@ -1,15 +1,70 @@
-"""C06 — sample-set evaluation agrees with per-sample evaluation (DESIGN §5 C06)."""
+"""C06 — sample-set evaluation agrees with per-sample evaluation (DESIGN §5 C06).
+
+Written against the normal form (VIEW = 'norm'): helpers that do not exist on the pinned tree are inlined and
+`iter().map(..).collect()` / `find` / `extend(filter(..))` chains are explicit loops, so every rule below speaks
+about loops, the items they visit and what is inserted / pushed for an item, not about adaptors or closures."""
 from .common import *
-from .feas import check_feasibility_rule
+from .feas import (check_feasibility_rule, origins, PathEval, const_operand, absent_inserts, error_propagates, result_kind,
+                   canon, whole, is_const, item_calls, enum_tests)
 
 INST = 'v1::Instance'; DV = 'v1::DecisionVariable'; CON = 'v1::Constraint'; RC = 'v1::RemovedConstraint'
-SC = 'v1::SampledConstraint'; EC = 'v1::EvaluatedConstraint'; SS = 'v1::SampleSet'
+SC = 'v1::SampledConstraint'; EC = 'v1::EvaluatedConstraint'; SS = 'v1::SampleSet'; SDV = 'v1::SampledDecisionVariable'
+SVE = 'v1::sampled_values::SampledValuesEntry'
 TOL = 1e-6
+VIEW = 'norm'
+CONV_DV = re.compile(r"TryFrom<&('\w+ )?v1::DecisionVariable>>::try_from|TryInto<bound::Bound>>::try_into")
 
 
 def root_local(body, operand):
     fs, root, calls = T.access_path(body, operand, transparent=T.TRANSPARENT_NOCLONE)
     return root
+
+
+def restricting(ctx, body, lo):
+    si = ctx.S.slice_operand(body, lo[0].args[0])
+    return sorted({x.item for x in si.call_objs if x.item in RESTRICTING and 'Iterator' in (x.trait or '')})
+
+
+def at_most_once(body, calls, header):
+    """none of `calls` can be reached from another one (or itself) without coming round the loop"""
+    return not [c for c in calls if c.target >= 0 and any(q.bb in body.reach([c.target], stop={header}) for q in calls)]
+
+
+def infeasible_only(ctx, body, c, fc, outer):
+    """`flags.insert(key, value)` (call c) inside the loop `outer`: is it executed exactly for the pairs (id, ok) of this
+    iteration's is_feasible result with ok == false, with key = that id and value = false?   Idioms:
+        for (id, ok) in r { if !ok { flags.insert(id, false) } }
+        flags.extend(r.into_iter().filter(|(_, ok)| !ok))                      (value = the pair's own `ok`, false on that path)
+        for (id, ok) in r { if ok { continue } flags.insert(id, false) }
+    -> dict(precise, false, only) or None"""
+    nextc, header, some_bb, none_bb, blocks = outer
+    inner = [l for l in T.for_loops(body) if c.bb in l[4] and l[1] != header and set(l[4]) < set(blocks)]
+    inner = [il for il in inner if any(x in ctx.S.slice_operand(body, il[0].args[0]).call_objs for x in fc)]
+    branches = 0          # branches of this function on the verdict of the pair being visited
+    for il in inner:
+        item = il[0].dst['l']
+        kroot, kfs = canon(body, c.args[1])
+        for l, ty in enumerate(body.locals):
+            if re.sub(r"&('\w+ )?", '', ty).strip() != 'bool' or l <= body.argc: continue       # `ok` bound by value or by reference
+            root, fs = canon(body, whole(l))
+            if root != item or not fs or fs[-1][1] != '1' or fs[-1][0] != 'tuple': continue
+            for sb, neg in T.bool_flow(body, l):
+                if sb not in il[4]: continue
+                tt, ft = T.switch_sides(body, sb, neg)
+                if ft is None or tt == ft: continue
+                branches += 1
+                if c.bb not in body.edge_region(sb, ft): continue
+                every = T.must_pass(body, ft, {il[1]}, {c.bb})
+                vfalse = is_const(body, c.args[2], 'false') or canon(body, c.args[2]) == (root, fs)
+                keyok = kroot == item and kfs == fs[:-1] + (('tuple', '0'),)
+                return dict(precise=True, false=vfalse, only=every and keyok, why='')
+    if branches:
+        # the verdict is tested here, but the update is not confined to the `false` side
+        return dict(precise=True, false=is_const(body, c.args[2], 'false'), only=False, why='')
+    for il in inner:
+        if is_const(body, c.args[2], 'false') and il[0].dst['l'] in ctx.S.slice_operand(body, c.args[1]).locals:
+            return dict(precise=False, false=True, only=None, why='the `!ok` test is not a branch of this function (filter closure of an iterator bound to a name first: %s)' % restricting(ctx, body, il))
+    return None
 
 
 def evaluate_samples_rules(ctx, body):
@@ -25,82 +80,73 @@ def evaluate_samples_rules(ctx, body):
     ctx.check(relaxed_l is not None and feas_l is not None and relaxed_l != feas_l and 'HashMap<u64, bool>' in body.locals[relaxed_l] and 'HashMap<u64, bool>' in body.locals[feas_l],
               R + '/flags/two-maps', 'T-CARRY', body.name, 'SampleSet.feasible_relaxed / feasible are not two distinct maps', body.site(sbi))
     if relaxed_l is None or feas_l is None: return
-    # keys: initialised from samples.ids() with `true`
-    rdefs = [d for d in body.defs_of(relaxed_l) if d[0] == 'call']
-    okinit = False
-    for k, bi, t in rdefs:
-        ex = T.expr(body, {'k': 'copy', 'pl': {'l': relaxed_l, 'p': []}}, depth=8)
-        ids_call = [x for x in T.expr_walk(ex) if x[0] == 'call' and x[1] == 'ids' and 'v1::Samples' in x[2]]
-        s = ctx.S.backslice(body, [relaxed_l], depth=2)
-        trues = False
-        for cn in s.closures:
-            cb = ctx.F.bodies.get(cn)
-            if cb is None or cb.parent != body.name: continue
-            for b2, st in cb.stmts():
-                if st['dst']['l'] == 0 and st['rv']['k'] == 'agg' and st['rv']['adt'] == 'tuple' and any(o['k'] == 'const' and o['v'] == 'true' for o in st['rv']['ops']): trues = True
-        okinit = bool(ids_call) and trues and T.strip_wrappers(ids_call[0][3][0]) == ('place', 2, [])
-    ctx.check(okinit, 'C06.keys/relaxed-from-sample-ids', 'T-CARRY', body.name, 'feasible_relaxed is not initialised as {id: true for id in samples.ids()}', body.site())
+    flag_ins = [c for c in body.calls if c.item == 'insert' and re.search(r'HashMap::<(u64, bool|K, V)>::insert', c.name) and len(c.args) == 3 and root_local(body, c.args[0]) in (relaxed_l, feas_l)]
+    # keys: starts empty and gets (id, true) for every id of samples.ids()
+    #   `ids.iter().map(|id| (*id, true)).collect()`  ==  `for id in ids { m.insert(id, true) }`   (same loop in the normal form)
+    init_ins = []
+    for lo in T.for_loops(body):
+        its = ctx.S.slice_operand(body, lo[0].args[0])
+        if not (its.has_call(r'impl v1::Samples>::ids') and 2 in its.params) or restricting(ctx, body, lo): continue
+        for c in flag_ins:
+            if c.bb in lo[4] and root_local(body, c.args[0]) == relaxed_l and is_const(body, c.args[2], 'true') \
+                    and lo[0].dst['l'] in ctx.S.slice_operand(body, c.args[1]).locals and T.must_pass(body, lo[2], {lo[1]}, {c.bb}):
+                init_ins.append(c)
+    fresh = any(k == 'call' and re.search(r'HashMap::<.*>::(new|with_capacity)$|as std::default::Default>::default$', d['r'] or d['f']) for k, bi, d in body.defs_of(relaxed_l))
+    ctx.check(bool(init_ins) and fresh, 'C06.keys/relaxed-from-sample-ids', 'T-CARRY', body.name, 'feasible_relaxed is not initialised as {id: true for id in samples.ids()}', body.site())
     fdefs = [d for d in body.defs_of(feas_l) if d[0] == 'call']
     clone = [c for c in body.calls if c.item == 'clone' and c.dst['l'] == feas_l and root_local(body, c.args[0]) == relaxed_l]
     ctx.check(len(clone) == 1 and len(fdefs) == 1, 'C06.keys/feasible-is-clone-of-relaxed', 'T-CARRY', body.name, 'feasible is not a clone of feasible_relaxed', body.site())
     # ---- the two constraint loops
-    pushes = [c for c in body.calls if c.item == 'push' and 'Vec::<v1::SampledConstraint>::push' in c.name]
-    inserts = [c for c in body.calls if c.item == 'insert' and 'HashMap::<u64, bool>::insert' in c.name]
+    def pushes_sc(c):
+        if c.item != 'push' or not re.search(r'Vec::<(v1::SampledConstraint|T)>::push', c.name): return False
+        r = root_local(body, c.args[0])
+        return r is not None and 'v1::SampledConstraint' in body.locals[r]
+    pushes = [c for c in body.calls if pushes_sc(c)]
     loops = {}
     for field, ty, target in (('constraints', CON, relaxed_l), ('removed_constraints', RC, feas_l)):
-        ls = [l for l in loops_over(ctx, body, INST, field) if any(c.bb in l[4] for c in body.calls if c.item == 'evaluate_samples' and c.is_(trait='Evaluate', self_ty=ty + '$'))]
-        ctx.check(len(ls) == 1, R + '/%s/loop' % field, 'T-LOOPMUST', body.name, 'expected one evaluate_samples loop over self.%s, found %d' % (field, len(ls)), body.site())
-        if len(ls) != 1: continue
+        ls = [l for l in loops_over(ctx, body, INST, field) if item_calls(body, l, ty, 'evaluate_samples')]
+        ctx.check(len(ls) >= 1, R + '/%s/loop' % field, 'T-LOOPMUST', body.name, 'no loop over self.%s that calls evaluate_samples on its items' % field, body.site())
+        if not ls: continue
         lo = ls[0]; loops[field] = lo
         nextc, header, some_bb, none_bb, blocks = lo
-        ev = [c for c in body.calls if c.bb in blocks and c.item == 'evaluate_samples' and c.is_(trait='Evaluate', self_ty=ty + '$')]
+        ev = item_calls(body, lo, ty, 'evaluate_samples')
         for c in ev:
             ctx.check(nextc.dst['l'] in ctx.S.slice_operand(body, c.args[0]).locals and root_local(body, c.args[1]) == 2, R + '/%s/evaluate-item' % field, 'T-CARRY', body.name, 'evaluate_samples is not applied to (loop item, samples)', body.site(c.bb))
-            errflow_calls(ctx, R + '/%s/error-propagates' % field, body, [c], 'constraint evaluation')
+            error_propagates(ctx, R + '/%s/error-propagates' % field, body, [c], 'constraint evaluation')
         loop_must(ctx, R + '/%s/evaluate-every' % field, body, lo, lambda c: c in ev, 'evaluate_samples')
         ps = [c for c in pushes if c.bb in blocks]
-        ctx.check(len(ps) == 1, R + '/%s/one-push' % field, 'T-LOOPMUST', body.name, 'expected one push per iteration, found %d' % len(ps), body.site(nextc.bb))
+        ctx.check(bool(ps) and at_most_once(body, ps, header), R + '/%s/one-push' % field, 'T-LOOPMUST', body.name, 'a sampled constraint is not pushed exactly once per iteration', body.site(nextc.bb))
         loop_must(ctx, R + '/%s/push-every' % field, body, lo, lambda c: c in ps, 'constraints.push')
         for c in ps:
             s = ctx.S.slice_operand(body, c.args[1])
             ctx.check(any(e in s.call_objs for e in ev), R + '/%s/push-is-result' % field, 'T-CARRY', body.name, 'pushed value is not the evaluation result', body.site(c.bb))
         ctx.check(all(body.dominates(header, e) for e in body.strict_ok_exits()), R + '/%s/dominates' % field, 'T-MUSTCALL', body.name, 'loop does not dominate the Ok-exit', body.site(nextc.bb))
-        # feasibility of this list goes into the right map, with the tolerance, only `false` is written, only for infeasible samples
+        # feasibility of this list goes into the right map, with the tolerance; only `false` is written, only for infeasible samples
         fc = [c for c in body.calls if c.bb in blocks and c.item == 'is_feasible' and c.path.endswith('SampledConstraint>::is_feasible')]
-        ctx.check(len(fc) == 1, R + '/%s/is_feasible' % field, 'T-LOOPMUST', body.name, 'expected one is_feasible per iteration, found %d' % len(fc), body.site(nextc.bb))
+        ctx.check(bool(fc), R + '/%s/is_feasible' % field, 'T-LOOPMUST', body.name, 'no is_feasible test in the loop', body.site(nextc.bb))
         for c in fc:
-            const_arg(ctx, R + '/%s/tolerance' % field, body, c, 1, TOL, 'feasibility tolerance', tol=1e-9)
+            const_operand(ctx, R + '/%s/tolerance' % field, body, c, 1, TOL, 'feasibility tolerance', tol=1e-9)
             rs = ctx.S.slice_operand(body, c.args[0])
             ctx.check(any(e in rs.call_objs for e in ev), R + '/%s/tests-this-iteration' % field, 'T-CARRY', body.name, 'is_feasible is not applied to this iteration\'s result', body.site(c.bb))
-            errflow_calls(ctx, R + '/%s/is_feasible-error' % field, body, [c], 'is_feasible')
+            error_propagates(ctx, R + '/%s/is_feasible-error' % field, body, [c], 'is_feasible')
             loop_must(ctx, R + '/%s/is_feasible-every' % field, body, lo, lambda x: x is c, 'is_feasible')
-        ins = [c for c in inserts if c.bb in blocks]
-        ctx.check(len(ins) == 1, R + '/%s/one-insert' % field, 'T-LOOPMUST', body.name, 'expected one flag update per iteration, found %d' % len(ins), body.site(nextc.bb))
+        ins = [c for c in flag_ins if c.bb in blocks]
+        ctx.check(bool(ins), R + '/%s/one-insert' % field, 'T-LOOPMUST', body.name, 'the flags of infeasible samples are not updated in the loop', body.site(nextc.bb))
         for c in ins:
             ctx.check(root_local(body, c.args[0]) == target, R + '/%s/insert-target' % field, 'T-CARRY', body.name,
                       'infeasibility of self.%s is recorded in the wrong map' % field, body.site(c.bb))
-            ctx.check(c.args[2]['k'] == 'const' and c.args[2]['v'] == 'false', R + '/%s/insert-false' % field, 'T-CONST', body.name, 'flag is overwritten with something other than `false`', body.site(c.bb))
-            # inner loop over the per-sample result, insert under `!feasible_` keyed by the sample id of the same item
-            inner = [l for l in T.for_loops(body) if c.bb in l[4] and l[1] != header and set(l[4]) < set(blocks)]
-            okk = False
-            for il in inner:
-                itl = il[0].dst['l']
-                ks = ctx.S.slice_operand(body, c.args[1])
-                its = ctx.S.slice_operand(body, il[0].args[0])
-                flag_sw = []
-                for bi in il[4]:
-                    t = body.blocks[bi]['term']
-                    if t['k'] == 'switch' and t['d']['k'] != 'const' and body.locals[t['d']['pl']['l']] == 'bool':
-                        if T.access_path(body, t['d'])[1] == itl:
-                            m = {v: tg for v, tg in t['ts']}
-                            flag_sw.append((m.get(0, None), t['else']))
-                for ft, tt in flag_sw:
-                    if ft is None: continue
-                    fr = body.reach([ft], stop={il[1]}); tr = body.reach([tt], stop={il[1]})
-                    if c.bb in fr and c.bb not in tr and T.must_pass(body, ft, {il[1]}, {c.bb}): okk = True
-                okk = okk and itl in ks.locals and any(x in its.call_objs for x in fc)
-            ctx.check(okk, R + '/%s/insert-only-infeasible' % field, 'T-BRANCHFX', body.name, 'the flag of a sample is not cleared exactly when that sample is infeasible', body.site(c.bb))
-    ctx.check(len(pushes) == 2 and len(inserts) == 2, R + '/two-lists', 'T-LOOPMUST', body.name, 'expected 2 pushes / 2 flag updates, found %d / %d' % (len(pushes), len(inserts)), body.site())
+            res = infeasible_only(ctx, body, c, fc, lo)
+            ctx.check(res is not None and res['false'], R + '/%s/insert-false' % field, 'T-CONST', body.name, 'flag is overwritten with something other than `false`', body.site(c.bb))
+            rule = R + '/%s/insert-only-infeasible' % field
+            if res is not None and res['precise']:
+                ctx.check(res['only'], rule, 'T-BRANCHFX', body.name, 'the flag of a sample is not cleared exactly when that sample is infeasible', body.site(c.bb))
+            elif res is not None:
+                ctx.undecided(rule, 'T-BRANCHFX', body.site(c.bb), res['why']); ctx.ok(rule + '~slice', 'T-BRANCHFX', body.site(c.bb))
+            else:
+                ctx.bad(rule, 'T-BRANCHFX', body.name, 'the flag of a sample is not cleared exactly when that sample is infeasible', body.site(c.bb))
+    stray_p = [c for c in pushes if not any(c.bb in lo[4] for lo in loops.values())]
+    stray_i = [c for c in flag_ins if c not in init_ins and not any(c.bb in lo[4] for lo in loops.values())]
+    ctx.check(bool(pushes) and not stray_p and not stray_i, R + '/two-lists', 'T-LOOPMUST', body.name, 'pushes / flag updates outside the two evaluation loops: %d / %d' % (len(stray_p), len(stray_i)), body.site())
     if 'constraints' in loops and clone:
         lo = loops['constraints']
         ctx.check(clone[0].bb not in lo[4] and body.dominates(lo[1], clone[0].bb), 'C06.keys/feasible-cloned-after-active-loop', 'T-BRANCHFX', body.name, 'feasible is not cloned after the active-constraint loop', body.site(clone[0].bb))
@@ -114,51 +160,59 @@ def evaluate_samples_rules(ctx, body):
     okobj = any(x[0] == 'call' and x[1] == 'evaluate_samples' and 'v1::Function as evaluate::Evaluate' in x[2] and T.expr_has_call(x[3][0], 'objective') and T.strip_wrappers(x[3][1]) == ('place', 2, []) for x in T.expr_walk(ex))
     ctx.check(okobj and ex[0] == 'agg' and ex[1].endswith('Option::Some') and [f for a, f in T.own_fields(ex[2][0]) if a == 'tuple'][-1:] == ['0'], R + '/objective', 'T-CARRY', body.name,
               'SampleSet.objectives is not Some(`.0` of self.objective().evaluate_samples(samples))', body.site(sbi))
-    errflow_calls(ctx, R + '/objective/error', body, [c for c in body.calls if c.item == 'evaluate_samples' and 'v1::Function as evaluate::Evaluate' in c.name], 'objective evaluation')
+    error_propagates(ctx, R + '/objective/error', body, [c for c in body.calls if c.item == 'evaluate_samples' and 'v1::Function as evaluate::Evaluate' in c.name], 'objective evaluation')
     carry_field(ctx, R + '/sense', body, ss, 'sense', need_fields=[(INST, 'sense')], site=body.site(sbi))
     ctx.check(T.access_path(body, agg_field_operand(ss, 'sense'))[0] == [(INST, 'sense')], R + '/sense-direct', 'T-CARRY', body.name, 'SampleSet.sense is not self.sense', body.site(sbi))
     # ---- decision variable values: dependencies evaluated and omitted variables completed for every state
     dvs = carry_field(ctx, R + '/decision_variables', body, ss, 'decision_variables', need_fields=[(INST, 'decision_variables')], need_calls=[r'impl v1::Samples>::transpose'], need_params=[2], site=body.site(sbi))
     sl = [l for l in T.for_loops(body) if ctx.S.slice_operand(body, l[0].args[0]).has_call(r'impl v1::Samples>::states_mut')]
-    ctx.check(len(sl) == 1, 'C06.sibling/states-loop', 'T-LOOPMUST', body.name, 'expected one loop over samples.states_mut(), found %d' % len(sl), body.site())
+    ctx.check(len(sl) >= 1, 'C06.sibling/states-loop', 'T-LOOPMUST', body.name, 'no loop over samples.states_mut()', body.site())
     tr = [c for c in body.calls if c.item == 'transpose' and c.path.endswith('Samples>::transpose')]
-    for lo in sl:
+    for lo in sl[:1]:
         nextc, header, some_bb, none_bb, blocks = lo
         ed = [c for c in body.calls if c.bb in blocks and c.item == 'eval_dependencies']
-        ctx.check(len(ed) == 1, 'C06.sibling/eval_dependencies', 'T-LOOPMUST', body.name, 'eval_dependencies is not applied inside the state loop', body.site(nextc.bb))
-        for c in ed:
+        ctx.check(len(ed) >= 1, 'C06.sibling/eval_dependencies', 'T-LOOPMUST', body.name, 'eval_dependencies is not applied inside the state loop', body.site(nextc.bb))
+        for c in ed[:1]:
             ctx.check(ctx.S.slice_operand(body, c.args[0]).has_field(INST, 'decision_variable_dependency') and nextc.dst['l'] in ctx.S.slice_operand(body, c.args[1]).locals,
                       'C06.sibling/eval_dependencies/args', 'T-CARRY', body.name, 'not (dependency map, this state)', body.site(c.bb))
-            errflow_calls(ctx, 'C06.sibling/eval_dependencies/error', body, [c], 'eval_dependencies')
+            error_propagates(ctx, 'C06.sibling/eval_dependencies/error', body, [c], 'eval_dependencies')
             loop_must(ctx, 'C06.sibling/eval_dependencies/every-state', body, lo, lambda x: x is c, 'eval_dependencies')
-        # completion with nearest_to_zero (sibling of Instance::evaluate)
-        vac = [c for c in body.calls if c.bb in blocks and c.item == 'insert' and 'VacantEntry' in c.name]
+        # completion with nearest_to_zero, only where the state has no value (sibling of Instance::evaluate); any "insert if absent" idiom
         okfill = False
-        for c in vac:
-            vex = T.expr(body, c.args[1], depth=14)
+        for a in absent_inserts(ctx, body, blocks):
+            c = a['call']
+            vex = T.expr(body, a['value'], depth=14)
             inner = [l for l in loops_over(ctx, body, INST, 'decision_variables') if c.bb in l[4] and set(l[4]) < set(blocks)]
-            ent = ctx.S.slice_operand(body, c.args[0])
-            keyed = any(x.item == 'entry' and (DV, 'id') in T.access_path(body, x.args[1])[0] and nextc.dst['l'] in ctx.S.slice_operand(body, x.args[0]).locals for x in ent.call_objs)
-            if T.expr_has_call(vex, 'nearest_to_zero') and any(re.search(r"TryFrom<&('\w+ )?v1::DecisionVariable>>::try_from|TryInto<bound::Bound>>::try_into", x[2]) for x in T.expr_calls(vex)) and inner and keyed:
+            keyed = (DV, 'id') in T.access_path(body, a['key'])[0] and nextc.dst['l'] in ctx.S.slice_operand(body, a['map']).locals
+            if a['how'] == 'contains_key': keyed = keyed and (DV, 'id') in T.access_path(body, a['test'].args[1])[0]
+            if T.expr_has_call(vex, 'nearest_to_zero') and any(CONV_DV.search(x[2]) for x in T.expr_calls(vex)) and inner and keyed:
                 il = inner[0]
-                okfill = il[0].dst['l'] in ctx.S.slice_operand(body, c.args[1]).locals and T.must_pass(body, some_bb, {header}, {il[1]}) and (not ed or body.dominates(ed[0].bb, il[1]))
+                okfill = il[0].dst['l'] in ctx.S.slice_operand(body, a['value']).locals and il[0].dst['l'] in ctx.S.slice_operand(body, a['key']).locals \
+                         and T.must_pass(body, some_bb, {header}, {il[1]}) and (not ed or body.dominates(ed[0].bb, il[1])) and not restricting(ctx, body, il)
         ctx.check(okfill, 'C06.sibling/fill-nearest_to_zero', 'T-SIBLING', body.name,
-                  'omitted irrelevant variables are not completed with Bound::nearest_to_zero for every state (Instance::evaluate does this)', body.site(nextc.bb))
+                  'omitted irrelevant variables are not completed with Bound::nearest_to_zero for every state, after its dependencies (Instance::evaluate does this)', body.site(nextc.bb))
         for c in tr:
             ctx.check(body.dominates(none_bb, c.bb) and c.bb not in blocks, 'C06.sibling/transpose-after-completion', 'T-MUSTCALL', body.name, 'values are transposed before the states are completed', body.site(c.bb))
             ctx.check(root_local(body, c.args[0]) == root_local(body, [x for x in body.calls if x.item == 'states_mut'][0].args[0]), 'C06.sibling/transpose-same-samples', 'T-CARRY', body.name, 'transpose is applied to other samples than the completed ones', body.site(c.bb))
     ctx.check(len(tr) == 1, 'C06.sibling/transpose', 'T-MUSTCALL', body.name, 'expected one transpose, found %d' % len(tr), body.site())
-    # per-variable samples: transposed.remove(&d.id) with the variable itself
-    for cn in (dvs.closures if dvs is not None else ()):
-        cb = ctx.F.bodies.get(cn)
-        if cb is None or cb.parent != body.name: continue
-        sa = find_aggregates(cb, 'v1::SampledDecisionVariable')
-        for bi, st in sa:
+    # per-variable samples: transposed.remove(&d.id) with the variable itself (the aggregate sits in the loop of the normal form,
+    # or in a closure the normal form did not splice)
+    gone = getattr(ctx.F, 'inlined_closures', ())
+    holders = [body] + [ctx.F.bodies[cn] for cn in sorted(dvs.closures if dvs is not None else ()) if cn in ctx.F.bodies and ctx.F.bodies[cn].parent == body.name and cn not in gone]
+    found = 0
+    for cb in holders:
+        for bi, st in find_aggregates(cb, SDV):
+            found += 1
             dvx = T.expr(cb, agg_field_operand(st, 'decision_variable'))
             smx = T.expr(cb, agg_field_operand(st, 'samples'), depth=12)
             rm = [x for x in T.expr_walk(smx) if x[0] == 'call' and x[1] in ('remove', 'get')]
             okk = bool(rm) and (DV, 'id') in T.expr_fields(rm[0][3][1]) and dvx[0] == 'agg' and dvx[1].endswith('Option::Some')
+            if okk and cb is body:
+                # both the clone and the key come from the variable of this iteration
+                il = [l for l in loops_over(ctx, body, INST, 'decision_variables') if bi in l[4]]
+                okk = bool(il) and all(il[-1][0].dst['l'] in ctx.S.slice_operand(body, agg_field_operand(st, f)).locals for f in ('decision_variable', 'samples'))
             ctx.check(okk, R + '/decision_variables/keyed-by-own-id', 'T-CARRY', cb.name, 'samples of a variable are not looked up under its own id', cb.site(bi))
+    if not found: ctx.bad(R + '/decision_variables/keyed-by-own-id', 'T-CARRY', body.name, 'no SampledDecisionVariable is built', body.site())
 
 
 def constraint_rules(ctx):
@@ -176,23 +230,31 @@ def constraint_rules(ctx):
             okv = any(x[0] == 'call' and x[1] == 'evaluate_samples' and 'v1::Function as evaluate::Evaluate' in x[2] and T.expr_has_call(x[3][0], 'function') and T.strip_wrappers(x[3][1]) == ('place', 2, []) for x in T.expr_walk(ex))
             ctx.check(okv, R + '/evaluate_samples/values', 'T-CARRY', b.name, 'evaluated_values is not self.function().evaluate_samples(samples)', b.site(bi))
             fs_ = slice_op(ctx, b, agg_field_operand(st, 'feasible'))
-            ctx.check(fs_.has_call(r'impl v1::SampledValues>::iter') and any(cn.endswith('evaluate_samples::{closure#0}') or True for cn in fs_.closures) and fs_.has_call('v1::Function as evaluate::Evaluate>::evaluate_samples'),
+            ctx.check(fs_.has_call(r'impl v1::SampledValues>::iter') and fs_.has_call('v1::Function as evaluate::Evaluate>::evaluate_samples'),
                       R + '/evaluate_samples/feasible-from-values', 'T-CARRY', b.name, 'per-sample feasibility does not derive from the evaluated values', b.site(bi))
             rr = T.expr(b, agg_field_operand(st, 'removed_reason'))
             ctx.check(rr[0] == 'agg' and rr[1].endswith('Option::None'), R + '/evaluate_samples/no-reason', 'T-CONST', b.name, 'active constraint gets a removal reason', b.site(bi))
-        errflow_calls(ctx, R + '/evaluate_samples/error', b, [c for c in b.calls if c.item == 'evaluate_samples'], 'function evaluation')
-        # the third copy of the feasibility rule lives in the closure
-        cls = [cb for cb in ctx.F.closures_of(b) if any(c.item in ('eq', 'ne') and re.search(r'v1::Equality$', c.self_ty or '') for c in cb.calls)]
-        ctx.check(len(cls) == 1, 'C06.rule/Constraint::evaluate_samples/closure', 'T-SIBLING', b.name, 'feasibility closure not found', b.site())
-        for cb in cls:
-            ctx.fn(cb)
-            check_feasibility_rule(ctx, 'C06.rule/Constraint::evaluate_samples', cb, TOL)
-            # key of the produced pair is the sample id of the same item
-            for e, k, rst in cb.ret_assignments():
-                if k == 'ok':
-                    ex = T.expr(cb, rst['rv']['ops'][0])
-                    if ex[0] == 'agg' and ex[1] == 'tuple':
-                        ctx.check(ex[2][0][0] == 'place' and ex[2][0][1] == 2, 'C06.rule/Constraint::evaluate_samples/key', 'T-CARRY', cb.name, 'pair key is not the sample id of the item', cb.site(e))
+        error_propagates(ctx, R + '/evaluate_samples/error', b, [c for c in b.calls if c.item == 'evaluate_samples'], 'function evaluation')
+        # the third copy of the feasibility rule: decided per (sample id, value) of the evaluated values, i.e. in the loop over them
+        #   `values.iter().map(|(id, v)| { if eq == .. { return Ok((*id, ..)) } .. bail! }).collect::<Result<_>>()?`
+        #   ==  `for (id, v) in values.iter() { let ok = match eq { .. }; m.insert(*id, ok) }`
+        vloops = [lo for lo in T.for_loops(b) if ctx.S.slice_operand(b, lo[0].args[0]).has_call(r'impl v1::SampledValues>::iter')
+                  and enum_tests(ctx, b, 'v1::Equality', set(lo[4]), raw_field='equality')]
+        ctx.check(len(vloops) >= 1, 'C06.rule/Constraint::evaluate_samples/closure', 'T-SIBLING', b.name, 'no loop over the evaluated values that decides feasibility per sample', b.site())
+        for lo in vloops[:1]:
+            check_feasibility_rule(ctx, 'C06.rule/Constraint::evaluate_samples', b, TOL, blocks=set(lo[4]))
+            # key of the produced pair is the sample id of the same item: `(id, verdict)` tuples and direct `insert(id, verdict)`
+            item = lo[0].dst['l']; keys = []
+            for bi, st in b.stmts():
+                if bi in lo[4] and st['rv']['k'] == 'agg' and st['rv']['adt'] == 'tuple' and len(st['rv']['ops']) == 2 and not st['dst']['p'] and b.locals[st['dst']['l']].replace(' ', '') == '(u64,bool)':
+                    keys.append((bi, st['rv']['ops'][0]))
+            for c in b.calls:
+                if c.bb in lo[4] and c.item == 'insert' and re.search(r'HashMap::<u64, bool>::insert', c.name) and len(c.args) == 3: keys.append((c.bb, c.args[1]))
+            okk = bool(keys) and not restricting(ctx, b, lo)
+            for bi, op in keys:
+                root, fs = canon(b, op)
+                okk = okk and root == item and bool(fs) and fs[-1] == ('tuple', '0')
+            ctx.check(okk, 'C06.rule/Constraint::evaluate_samples/key', 'T-CARRY', b.name, 'pair key is not the sample id of the item (or not every sample gets a verdict)', b.site(lo[0].bb))
     # RemovedConstraint::evaluate_samples
     b = ctx.method(R + '/removed/anchor', RC, 'evaluate_samples', trait='Evaluate')
     if b is not None:
@@ -200,7 +262,7 @@ def constraint_rules(ctx):
         ctx.check(len(ce) == 1, R + '/removed/delegates', 'T-MUSTCALL', b.name, 'does not evaluate the wrapped constraint', b.site())
         for c in ce:
             ctx.check((RC, 'constraint') in T.access_path(b, c.args[0])[0] and T.access_path(b, c.args[1])[1] == 2, R + '/removed/args', 'T-CARRY', b.name, 'not (self.constraint, samples)', b.site(c.bb))
-            errflow_calls(ctx, R + '/removed/error', b, [c], 'constraint evaluation')
+            error_propagates(ctx, R + '/removed/error', b, [c], 'constraint evaluation')
         for f in ('removed_reason', 'removed_reason_parameters'):
             ws = [(bi, st) for bi, st in b.stmts() if st['dst']['p'] and fields_of_place(st['dst'])[-1:] == [(SC, f)]]
             ok = False
@@ -214,7 +276,7 @@ def constraint_rules(ctx):
     if b is not None:
         check_feasibility_rule(ctx, 'C06.rule/SampledConstraint::is_feasible', b, 'given')
         opt = [c for c in b.calls if c.item == 'as_ref' and 'SampledValues' in c.name]
-        errflow_calls(ctx, 'C06.rule/SampledConstraint::is_feasible/missing-values', b, opt, 'missing evaluated_values')
+        error_propagates(ctx, 'C06.rule/SampledConstraint::is_feasible/missing-values', b, opt, 'missing evaluated_values')
     # SampledConstraint::get
     b = ctx.method(R + '/get/anchor', SC, 'get')
     if b is not None:
@@ -229,9 +291,27 @@ def constraint_rules(ctx):
             ctx.check(bool(gets) and (SC, 'evaluated_values') in T.expr_fields(gets[0][3][0]) and T.strip_wrappers(gets[0][3][1]) == ('place', 2, []), R + '/get/value', 'T-CARRY', b.name,
                       'evaluated_value is not self.evaluated_values.get(sample_id)', b.site(bi))
         g = [c for c in b.calls if c.item == 'get' and c.path.endswith('SampledValues>::get')]
-        errflow_calls(ctx, R + '/get/missing-sample-is-error', b, g, 'missing sample value')
-        errflow_calls(ctx, R + '/get/missing-values-is-error', b, [c for c in b.calls if c.item == 'as_ref' and 'SampledValues' in c.name], 'missing evaluated_values')
+        error_propagates(ctx, R + '/get/missing-sample-is-error', b, g, 'missing sample value')
+        error_propagates(ctx, R + '/get/missing-values-is-error', b, [c for c in b.calls if c.item == 'as_ref' and 'SampledValues' in c.name], 'missing evaluated_values')
         cover(ctx, 'C06.cover/SampledConstraint::get', b, SC, exempt=('feasible',))
+
+
+def option_tests_on(body, adt, field, blocks):
+    """tests `Some / None` of an Option that is (a copy of) field adt.field, also when it was first packed into a tuple
+    (`match (v.substituted_value, &s.samples) { (Some(x), _) => .. }`): (switch bb, Some target, None target)"""
+    out = []
+    for bi in sorted(body.live):
+        if bi not in blocks: continue
+        t = body.blocks[bi]['term']
+        if t['k'] != 'switch' or t['d']['k'] == 'const': continue
+        for k2, b2, d in body.defs_of(t['d']['pl']['l']):
+            if k2 == 'stmt' and d['rv']['k'] == 'discr':
+                e = T.expr(body, {'k': 'copy', 'pl': d['rv']['pl']})
+                fs = T.own_fields(e) if e[0] in ('place', 'proj') else []
+                if fs and fs[-1][1] == field and (fs[-1][0] == adt or fs[-1][0].endswith('::' + adt)):
+                    m = {v: tg for v, tg in t['ts']}
+                    out.append((bi, m.get(1, t['else']), m.get(0, t['else'])))
+    return out
 
 
 def get_rules(ctx):
@@ -254,41 +334,67 @@ def get_rules(ctx):
             gets = [x for x in T.expr_calls(ex) if x[1] == 'get' and 'HashMap' in x[2]]
             ok = acc in names and other not in names and bool(gets) and T.expr_has_call(gets[0][3][0], acc) and ('place', 2, []) in [T.strip_wrappers(y) for y in T.expr_walk(gets[0][3][1])]
             ctx.check(ok, R + '/flags/' + field, 'T-CARRY', b.name, 'Solution.%s is not *self.%s().get(&sample_id) (calls: %s)' % (field, acc, names), b.site(bi))
-        ec = carry_field(ctx, R + '/evaluated_constraints', b, st, 'evaluated_constraints', need_fields=[(SS, 'constraints')], need_calls=[r'impl v1::SampledConstraint>::get'], need_params=[2], site=b.site(bi))
-        carry_field(ctx, R + '/decision_variables', b, st, 'decision_variables', need_fields=[(SS, 'decision_variables'), ('v1::SampledDecisionVariable', 'decision_variable')], site=b.site(bi))
-        carry_field(ctx, R + '/state', b, st, 'state', need_fields=[('v1::SampledDecisionVariable', 'samples')], need_params=[2], site=b.site(bi))
+        carry_field(ctx, R + '/evaluated_constraints', b, st, 'evaluated_constraints', need_fields=[(SS, 'constraints')], need_calls=[r'impl v1::SampledConstraint>::get'], need_params=[2], site=b.site(bi))
+        carry_field(ctx, R + '/decision_variables', b, st, 'decision_variables', need_fields=[(SS, 'decision_variables'), (SDV, 'decision_variable')], site=b.site(bi))
+        carry_field(ctx, R + '/state', b, st, 'state', need_fields=[(SDV, 'samples')], need_params=[2], site=b.site(bi))
     # every missing entry is an error
     for c in b.calls:
         if c.item == 'get' and ('HashMap::<u64, bool>' in c.name or c.path.endswith('SampledValues>::get')) and b.locals[c.dst['l']].startswith('std::option::Option'):
             ex_uses = b.uses.get(c.dst['l'], ())
-            # the one inside the state loop feeds and_then / match; handled below
+            # the one inside the state loop feeds the value table below
             if any(k == 'call' and x.item in ('with_context', 'context', 'ok_or', 'ok_or_else') for k, bi, x in ex_uses):
-                errflow_calls(ctx, R + '/missing-is-error', b, [c], 'missing entry for the sample')
-    errflow_calls(ctx, R + '/constraint-error', b, [c for c in b.calls if c.item == 'collect' and 'Result<std::vec::Vec<v1::EvaluatedConstraint>' in c.name], 'SampledConstraint::get error')
+                error_propagates(ctx, R + '/missing-is-error', b, [c], 'missing entry for the sample')
+    # a constraint that cannot be read for this sample is an error:  `.map(|c| c.get(id)).collect::<Result<_>>()?`  ==  `for c { v.push(c.get(id)?) }`
+    error_propagates(ctx, R + '/constraint-error', b, [c for c in b.calls if c.item == 'get' and c.path.endswith('SampledConstraint>::get')], 'SampledConstraint::get error')
     # state value: substituted value first, else the sampled value, else error
     loops = loops_over(ctx, b, SS, 'decision_variables')
-    ctx.check(len(loops) == 1, R + '/state/loop', 'T-LOOPMUST', b.name, 'expected one loop over self.decision_variables', b.site())
-    for lo in loops:
+    ctx.check(len(loops) >= 1, R + '/state/loop', 'T-LOOPMUST', b.name, 'no loop over self.decision_variables', b.site())
+    for lo in loops[:1]:
         nextc, header, some_bb, none_bb, blocks = lo
         ins = [c for c in b.calls if c.bb in blocks and c.item == 'insert' and 'HashMap::<u64, f64>::insert' in c.name]
-        tests = [t for t in option_field_tests(b, DV, 'substituted_value') if t[0] in blocks]
-        ctx.check(len(tests) == 1 and len(ins) == 2, R + '/state/substituted-first', 'T-BRANCHFX', b.name, 'expected `if let Some(v) = substituted_value {..} else if let Some(v) = sample {..}`', b.site(nextc.bb))
-        if len(tests) == 1 and len(ins) == 2:
-            sb, some_t, none_t = tests[0]
-            sr = b.reach([some_t], stop={header}) - b.reach([none_t], stop={header}); nr = b.reach([none_t], stop={header}) - b.reach([some_t], stop={header})
-            a = [c for c in ins if c.bb in sr]; o = [c for c in ins if c.bb in nr]
-            ok = len(a) == 1 and len(o) == 1
-            if ok:
-                ok = any(f == 'substituted_value' for x, f in T.expr_fields(T.expr(b, a[0].args[2]))) and ctx.S.slice_operand(b, o[0].args[2]).has_call(r'impl v1::SampledValues>::get') and 2 in ctx.S.slice_operand(b, o[0].args[2]).params \
-                     and ('v1::SampledDecisionVariable', 'samples') in [(x, f) for x, f in ctx.S.slice_operand(b, o[0].args[2]).fields]
-                for c in a + o:
-                    ok = ok and (DV, 'id') in T.access_path(b, c.args[1])[0]
-            ctx.check(ok, R + '/state/table', 'T-BRANCHFX', b.name, 'state value is not {substituted_value if set, else samples.get(sample_id)} keyed by the variable id', b.site(nextc.bb))
-            # neither => error
-            errs = b.err_exits()
-            via = {c.bb for c in ins}
-            ctx.check(T.must_pass(b, some_bb, errs, via) is False and bool(b.reach([none_t], stop={header}) & errs), R + '/state/missing-is-error', 'T-ERRFLOW', b.name, 'a variable without any value is not an error', b.site(nextc.bb))
-            ctx.check(T.must_pass(b, some_bb, {header}, via), R + '/state/every-variable', 'T-LOOPMUST', b.name, 'a variable can be skipped without a value', b.site(nextc.bb))
+        tests = option_tests_on(b, DV, 'substituted_value', blocks)
+        # where the inserted values come from (through `Some(..)` wrappers, `let .. else`, `match` arms):
+        #   `if let Some(x) = v.substituted_value { insert(x) } else if let Some(y) = sampled { insert(y) } else { bail! }`
+        #   ==  `let value = match (v.substituted_value, samples) { (Some(x), _) => Some(x), (None, Some(s)) => s.get(id), .. }; let Some(value) = value else { bail! }; insert(value)`
+        subst = []; sampled = []; other = []
+        for c in ins:
+            hs, leaves = origins(b, c.args[2])
+            for kind, bi, obj in leaves:
+                if kind == 'place' and any(f == 'substituted_value' for a, f in T.expr_fields(obj)): subst.append((c, bi))
+                elif kind == 'call':
+                    s = ctx.S.slice_operand(b, {'k': 'copy', 'pl': obj.dst})
+                    if (s.has_call(r'impl v1::SampledValues>::get') or obj.path.endswith('SampledValues>::get')) and 2 in s.params and (SDV, 'samples') in s.fields: sampled.append((c, bi))
+                    else: other.append((kind, bi, obj.name[:60]))
+                else: other.append((kind, bi, str(obj)[:60]))
+        # priority: the sampled value is looked at only where substituted_value is None
+        none_only = set()
+        for sb, some_t, none_t in tests:
+            none_only |= b.reach([none_t], stop={header}) - b.reach([some_t], stop={header})
+        first = bool(tests) and bool(subst) and bool(sampled) and all(bi in none_only for c, bi in sampled) and all(bi not in none_only for c, bi in subst)
+        ctx.check(first, R + '/state/substituted-first', 'T-BRANCHFX', b.name, 'the sampled value is not used only where there is no substituted_value (tests %d, substituted %d, sampled %d)' % (len(tests), len(subst), len(sampled)), b.site(nextc.bb))
+        keyed = bool(ins) and all((DV, 'id') in T.access_path(b, c.args[1])[0] for c in ins)
+        ctx.check(keyed and not other and bool(subst) and bool(sampled), R + '/state/table', 'T-BRANCHFX', b.name, 'state value is not {substituted_value if set, else samples.get(sample_id)} keyed by the variable id %s' % (other[:3],), b.site(nextc.bb))
+        # neither => error
+        errs = b.err_exits()
+        via = {c.bb for c in ins}
+        none_sides = [none_t for sb, some_t, none_t in tests]
+        ctx.check(bool(tests) and T.must_pass(b, some_bb, errs, via) is False and all(bool(b.reach([n], stop={header}) & errs) for n in none_sides), R + '/state/missing-is-error', 'T-ERRFLOW', b.name, 'a variable without any value is not an error', b.site(nextc.bb))
+        ctx.check(bool(ins) and T.must_pass(b, some_bb, {header}, via), R + '/state/every-variable', 'T-LOOPMUST', b.name, 'a variable can be skipped without a value', b.site(nextc.bb))
+
+
+def entry_base(e, adt, field):
+    """identity of the value whose field adt.field an expression reads: ('place', root local, prefix) / ('call', bb, prefix)"""
+    for x in T.expr_walk(e):
+        if x[0] in ('proj', 'place') and x[2]:
+            for i, (a, f) in enumerate(x[2]):
+                if f == field and (a == adt or a.endswith('::' + adt)):
+                    pre = tuple(x[2][:i])
+                    if x[0] == 'place': return ('place', x[1], pre)
+                    inner = x[1]
+                    if inner[0] == 'call': return ('call', inner[4] if len(inner) > 4 else inner[2], pre)
+                    if inner[0] == 'local': return ('local', inner[1], pre)
+                    return (inner[0], T.expr_str(inner), pre)
+    return None
 
 
 def compress_rules(ctx):
@@ -296,15 +402,24 @@ def compress_rules(ctx):
     # Samples::map: each entry -> value of that entry's state, with that entry's ids
     b = ctx.method(R + '/map/anchor', 'v1::Samples', 'map')
     if b is not None:
-        cls = ctx.F.closures_of(b)
-        ok = False
-        for cb in cls:
-            for bi, st in find_aggregates(cb, 'v1::sampled_values::SampledValuesEntry'):
-                vx = T.expr(cb, agg_field_operand(st, 'value'), depth=14); ix = T.expr(cb, agg_field_operand(st, 'ids'), depth=8)
-                vf = T.expr_fields(vx); idf = T.expr_fields(ix)
-                ok = ('v1::samples::SamplesEntry', 'state') in vf and ('v1::samples::SamplesEntry', 'ids') in idf and any(x[0] == 'place' and x[1] == 2 for x in T.expr_walk(vx)) and any(x[0] == 'place' and x[1] == 2 for x in T.expr_walk(ix))
+        holders = [b] + list(ctx.F.closures_of(b))
+        ok = False; n = 0
+        for cb in holders:
+            for bi, st in find_aggregates(cb, SVE):
+                n += 1
+                vx = T.expr(cb, agg_field_operand(st, 'value'), depth=40); ix = T.expr(cb, agg_field_operand(st, 'ids'), depth=20)
+                bs = entry_base(vx, 'v1::samples::SamplesEntry', 'state'); bids = entry_base(ix, 'v1::samples::SamplesEntry', 'ids')
+                same = bs is not None and bs == bids
+                if cb is b and same:
+                    # ... and that entry is the item of a loop over self.entries (`self.entries[0]` is not "this entry")
+                    lo = [l for l in loops_over(ctx, b, 'v1::Samples', 'entries') if bi in l[4]]
+                    same = bool(lo) and bs[0] == 'call' and bs[1] == lo[-1][0].bb
+                elif same:
+                    same = bs[0] == 'place' and bs[1] == 2            # the closure's own item
+                applied = any(x[0] == 'call' and re.search(r'Fn(Mut|Once)?<|call_mut|call_once|::call$|<indirect:', x[2]) for x in T.expr_calls(vx))
+                ok = same and applied
                 ctx.fn(cb)
-        ctx.check(ok, R + '/map/entry', 'T-CARRY', b.name, 'SampledValuesEntry is not {value: f(entry.state), ids: entry.ids} of the same entry', b.site())
+        ctx.check(ok and n == 1, R + '/map/entry', 'T-CARRY', b.name, 'SampledValuesEntry is not {value: f(entry.state), ids: entry.ids} of the same entry', b.site())
         s = ctx.S.backslice(b, [0])
         restr = sorted({x.item for x in s.call_objs if x.item in RESTRICTING and 'Iterator' in (x.trait or '')})
         ctx.check(s.has_field('v1::Samples', 'entries') and not restr, R + '/map/all-entries', 'T-LOOPMUST', b.name, 'map does not visit every entry %s' % restr, b.site())
@@ -312,29 +427,45 @@ def compress_rules(ctx):
     b = ctx.method(R + '/get/anchor', 'v1::SampledValues', 'get')
     if b is not None:
         cont = [c for c in b.calls if c.item == 'contains']
-        okk = False
+        okk = False; nones = [e for e, k, rst in b.ret_assignments() if k == 'none']
+        lo_all = loops_over(ctx, b, 'v1::SampledValues', 'entries')
         for c in cont:
             fs = T.access_path(b, c.args[0])[0]
             key = T.strip_wrappers(T.expr(b, c.args[1]))
+            if (SVE, 'ids') not in fs or key != ('place', 2, []): continue
+            bi_ = entry_base(T.expr(b, c.args[0]), SVE, 'ids')
             for g in T.guards_from_call(b, c):
-                tr = b.reach([g.true_bb])
+                if g.true_bb is None: continue
+                tr = b.reach([g.true_bb]); only_true = b.edge_region(g.switch_bb, g.true_bb)
+                # (a) `if e.ids.contains(&id) { return Some(e.value) }`
                 for e, k, rst in b.ret_assignments():
-                    if e in tr and k == 'ok' or (e in tr and k in ('ok', 'val')):
+                    if e in tr and k in ('ok', 'val'):
                         vx = T.expr(b, rst['rv']['ops'][0])
-                        if ('v1::sampled_values::SampledValuesEntry', 'value') in T.expr_fields(vx) and ('v1::sampled_values::SampledValuesEntry', 'ids') in fs and key == ('place', 2, []):
-                            # same entry: value and ids are fields of the same base expression
-                            def base_of(e, field):
-                                for x in T.expr_walk(e):
-                                    if x[0] in ('proj', 'place') and x[2] and x[2][-1][1] == field:
-                                        return str((x[0], x[1], x[2][:-1]))
-                                return None
-                            bv = base_of(vx, 'value'); bi_ = base_of(T.expr(b, c.args[0]), 'ids')
-                            okk = bv is not None and bv == bi_
+                        bv = entry_base(vx, SVE, 'value')
+                        if bv is not None and bv == bi_: okk = True
+                # (b) `entries.iter().find(|e| e.ids.contains(&id)).map(|e| e.value)`: on the true side the entry itself is
+                #     kept as Some(entry), None when the loop is exhausted, and the result is mapped to its `.value`
+                for e, k, rst in b.ret_assignments():
+                    if k != 'callval' or not re.search(r'Option::<.*>::map::<', rst['r'] or rst['f']): continue
+                    found = rst['args'][0]; cl = ctx.S.slice_operand(b, rst['args'][1]).closures if len(rst['args']) > 1 else set()
+                    if found['k'] not in ('copy', 'move') or found['pl']['p']: continue
+                    defs = b.defs_of(found['pl']['l'])
+                    somes = [(bb, d) for kk, bb, d in defs if kk == 'stmt' and d['rv']['k'] == 'agg' and d['rv']['adt'].endswith('Option::Some')]
+                    nn = [bb for kk, bb, d in defs if kk == 'stmt' and d['rv']['k'] == 'agg' and d['rv']['adt'].endswith('Option::None')]
+                    lo = [l for l in lo_all if c.bb in l[4]]
+                    kept = bool(somes) and len(somes) + len(nn) == len(defs) and bool(lo) and bi_ is not None and bi_[0] == 'call' and bi_[1] == lo[-1][0].bb \
+                        and all(bb in only_true and canon(b, d['rv']['ops'][0])[0] == lo[-1][0].dst['l'] for bb, d in somes)
+                    maps_value = False
+                    for cn in cl:
+                        cb = ctx.F.bodies.get(cn)
+                        if cb is None: continue
+                        rets = [T.expr(cb, rs['rv']['ops'][0]) for e2, k2, rs in cb.ret_assignments() if k2 == 'val' and rs['rv']['k'] == 'use']
+                        maps_value = bool(rets) and all(r[0] == 'place' and r[1] == 2 and [f for a, f in r[2]] == ['value'] for r in rets)
+                    if kept and maps_value:
+                        okk = True; nones += nn
         ctx.check(okk, R + '/get/value-of-matching-entry', 'T-BRANCHFX', b.name, 'get does not return the value of the entry whose ids contain the sample id', b.site())
-        nones = [e for e, k, rst in b.ret_assignments() if k == 'none']
         ctx.check(bool(nones), R + '/get/none-when-absent', 'T-BRANCHFX', b.name, 'no None result for an unknown sample id', b.site())
-        lo = loops_over(ctx, b, 'v1::SampledValues', 'entries')
-        ctx.check(len(lo) == 1, R + '/get/all-entries', 'T-LOOPMUST', b.name, 'expected one loop over entries', b.site())
+        ctx.check(len(lo_all) >= 1 and not any(restricting(ctx, b, l) for l in lo_all), R + '/get/all-entries', 'T-LOOPMUST', b.name, 'no loop over all entries', b.site())
     # SampledValues::iter: (id, value) of the same entry
     b = ctx.method(R + '/iter/anchor', 'v1::SampledValues', 'iter')
     if b is not None:
@@ -343,9 +474,9 @@ def compress_rules(ctx):
             for bi, st in cb.stmts():
                 if st['dst']['l'] == 0 and st['rv']['k'] == 'agg' and st['rv']['adt'] == 'tuple' and len(st['rv']['ops']) == 2:
                     vx = T.expr(cb, st['rv']['ops'][1])
-                    if ('v1::sampled_values::SampledValuesEntry', 'value') in T.expr_fields(vx): ok = True
+                    if (SVE, 'value') in T.expr_fields(vx): ok = True
         s = ctx.S.backslice(b, [0])
-        ctx.check(ok and s.has_field('v1::sampled_values::SampledValuesEntry', 'ids') and s.has_field('v1::SampledValues', 'entries'), R + '/iter/pairs', 'T-CARRY', b.name, 'iter does not yield (id, value-of-that-entry)', b.site())
+        ctx.check(ok and s.has_field(SVE, 'ids') and s.has_field('v1::SampledValues', 'entries'), R + '/iter/pairs', 'T-CARRY', b.name, 'iter does not yield (id, value-of-that-entry)', b.site())
     # Samples::ids / iter / transpose
     b = ctx.method(R + '/ids/anchor', 'v1::Samples', 'ids')
     if b is not None:
@@ -377,5 +508,6 @@ def check(ctx):
     constraint_rules(ctx)
     get_rules(ctx)
     compress_rules(ctx)
-    ctx.floor('C06.samples', 40); ctx.floor('C06.keys', 3); ctx.floor('C06.sibling', 8); ctx.floor('C06.constraint', 25); ctx.floor('C06.rule', 10)
-    ctx.floor('C06.get', 10); ctx.floor('C06.compress', 8); ctx.floor('C06.cover', 15)
+    # floors = decided instances per family on the pinned tree
+    ctx.floor('C06.samples', 50); ctx.floor('C06.keys', 4); ctx.floor('C06.sibling', 10); ctx.floor('C06.constraint', 29); ctx.floor('C06.rule', 15)
+    ctx.floor('C06.get', 16); ctx.floor('C06.compress', 11); ctx.floor('C06.cover', 22)
